@@ -3,7 +3,9 @@
 patch="$1"; prop="$2"; tier="${3:-quick}"
 git -C /repo diff --quiet || { echo "/repo not clean"; exit 2; }
 git -C /repo apply "$patch" || { echo "patch does not apply"; exit 2; }
+cp /verif/evidence/$prop.json /verif/.evidence_saved_$$.json 2>/dev/null
 cd /verif && timeout 1800 ./check "$prop" --tier "$tier" > /tmp/try_$$.log 2>&1; rc=$?
 git -C /repo checkout -- . ; rm -rf /repo/test/templates/modules
+[ -f /verif/.evidence_saved_$$.json ] && mv /verif/.evidence_saved_$$.json /verif/evidence/$prop.json
 grep -E "^(VIOLATION|KNOWN-FINDING|C[0-9]+ )" /tmp/try_$$.log | head -8
 echo "exit=$rc"; rm -f /tmp/try_$$.log
